@@ -549,4 +549,58 @@ mod k {
         }
         std::mem::forget(r);
     }
+
+    // TMPEXP-BEGIN
+    /// VERIF: {"p":"C17","tier":"quick","fns":[],"bounds":"tmp","oracle":"tmp","covers":0,"unwind":24}
+    #[kani::proof]
+    #[kani::unwind(24)]
+    fn c17_tmp_prefix() {
+        let mut o = NDOptions::verif_typed();
+        o.add_option(NDOptionValue::Prefix(AdvPrefix { prefixlen: kani::any(), onlink: kani::any(), autonomous: kani::any(), valid: Duration::from_secs(kani::any()), preferred: Duration::from_secs(kani::any()), prefix: std::net::Ipv6Addr::from(kani::any::<u128>()) }));
+        let a = RtrAdvertisement { hop_limit: kani::any(), flag_managed: kani::any(), flag_other: kani::any(), lifetime: Duration::from_secs(kani::any()), reachable: Duration::from_secs(kani::any()), retrans: Duration::from_secs(kani::any()), options: o };
+        let b = serialise_router_advertisement(&a);
+        assert!(b.len() == 48, "len");
+        std::mem::forget(a);
+        std::mem::forget(b);
+    }
+
+    /// VERIF: {"p":"C17","tier":"quick","fns":[],"bounds":"tmp","oracle":"tmp","covers":0,"unwind":24}
+    #[kani::proof]
+    #[kani::unwind(24)]
+    fn c17_tmp_rdnss() {
+        let mut o = NDOptions::verif_typed();
+        o.add_option(NDOptionValue::RecursiveDnsServers((Duration::from_secs(kani::any()), vec![std::net::Ipv6Addr::from(kani::any::<u128>())])));
+        let a = RtrAdvertisement { hop_limit: kani::any(), flag_managed: kani::any(), flag_other: kani::any(), lifetime: Duration::from_secs(kani::any()), reachable: Duration::from_secs(kani::any()), retrans: Duration::from_secs(kani::any()), options: o };
+        let b = serialise_router_advertisement(&a);
+        assert!(b.len() == 40, "len");
+        std::mem::forget(a);
+        std::mem::forget(b);
+    }
+
+    /// VERIF: {"p":"C17","tier":"quick","fns":[],"bounds":"tmp","oracle":"tmp","covers":0,"unwind":24}
+    #[kani::proof]
+    #[kani::unwind(24)]
+    fn c17_tmp_dnssl() {
+        let mut o = NDOptions::verif_typed();
+        o.add_option(NDOptionValue::DnsSearchList((Duration::from_secs(kani::any()), vec![String::from("a.bc"), String::from("de")])));
+        let a = RtrAdvertisement { hop_limit: kani::any(), flag_managed: kani::any(), flag_other: kani::any(), lifetime: Duration::from_secs(kani::any()), reachable: Duration::from_secs(kani::any()), retrans: Duration::from_secs(kani::any()), options: o };
+        let b = serialise_router_advertisement(&a);
+        assert!(b.len() == 40, "len");
+        std::mem::forget(a);
+        std::mem::forget(b);
+    }
+
+    /// VERIF: {"p":"C17","tier":"quick","fns":[],"bounds":"tmp","oracle":"tmp","covers":0,"unwind":24}
+    #[kani::proof]
+    #[kani::unwind(24)]
+    fn c17_tmp_portal() {
+        let mut o = NDOptions::verif_typed();
+        o.add_option(NDOptionValue::CaptivePortal(String::from("http://x/")));
+        let a = RtrAdvertisement { hop_limit: kani::any(), flag_managed: kani::any(), flag_other: kani::any(), lifetime: Duration::from_secs(kani::any()), reachable: Duration::from_secs(kani::any()), retrans: Duration::from_secs(kani::any()), options: o };
+        let b = serialise_router_advertisement(&a);
+        assert!(b.len() == 32, "len");
+        std::mem::forget(a);
+        std::mem::forget(b);
+    }
+    // TMPEXP-END
 }
